@@ -384,6 +384,12 @@ DIRECT_EXPECT = {
 # methods whose slot rows describe the documented fall-back path (taken when the fast call is denied)
 FALLBACK_ROWS = {("windows", "memory_info"), ("windows", "memory_full_info"), ("windows", "io_counters"), ("windows", "cpu_times"),
                  ("windows", "create_time"), ("windows", "num_handles"), ("sunos", "uids"), ("sunos", "gids")}
+# LEFTOVER (text-only note, logic untouched): both findings below were fixed in /repo by 61843a1 (Windows ppid() decorated) and
+# 4481769 (Windows memory_maps() loop inside the converting try) and are `fixed:` lines of findings/C20.json, no longer known
+# findings. On the repaired tree these regions are never entered (the outcome is inside the specification, so judge_fault
+# returns before looking at `region`). CAVEAT: judge_fault does not check that the id is still listed in known_findings.json,
+# so after a revert of either repair a bare OSError at these two call sites would still be tolerated here; the regression is
+# then reported by the theorems only (cfg_win_ppid_wrapped, cfg_win_maps_loop_guarded, C20_method_faults_within_spec_code).
 KNOWN_REGIONS = {
     "C20-win-ppid-bare": ("windows", "ppid", "ppid_map"),
     "C20-win-memory-maps-bare": ("windows", "memory_maps", "QueryDosDevice"),
